@@ -245,9 +245,9 @@ def b3_configs(tier, fixed):
     q = tier == "quick"
     return [
         ("value bursts", consts("value", fixed, Settled=False, AllowEmpty=True, AllowStop=True, MaxCmd=2, MaxSet=1,
-                                 MaxSteps=4 if q else 5, SockCap=1)),
+                                 MaxSteps=3 if q else 5, SockCap=1)),
         ("map bursts hold", consts("map", fixed, Settled=False, AllowHold=True, MaxCmd=2, MaxSet=1,
-                                    MaxSteps=4 if q else 5, SockCap=1, InitLane="<- LaneM2")),
+                                    MaxSteps=3 if q else 5, SockCap=1, InitLane="<- LaneM2")),
     ] + ([] if q else [
         ("value cap0 settled deep", consts("value", fixed, Settled=True, AllowEmpty=True, AllowStop=True, MaxCmd=3, MaxSet=2,
                                             MaxSteps=7, SockCap=0)),
